@@ -122,7 +122,8 @@ theorem fillUp_length (v : α → Nat) (B : Nat) : ∀ (ys cur : List α),
 
 /-- Bidirectional filling of a list sorted by non-increasing value:
     open a bin with the largest remaining item (the head), add the smallest remaining items (from the other
-    end) until the bin is covered; a bin that cannot be covered (the items ran out) is discarded. -/
+    end) until the bin is covered; a bin that cannot be covered is discarded (the items have run out then,
+    see `fillUp_uncovered`). -/
 def biFill (v : α → Nat) (B : Nat) : List α → List (List α)
   | [] => []
   | x :: rest =>
@@ -165,7 +166,8 @@ theorem opening_length (v : α → Nat) (X Y : List α) (h : ¬ (X = [] ∧ Y = 
     non-decreasing value; `cur` is the bin being filled.
     * no small items left: next-fit cover with the big, then the medium items;
     * only small items left: next-fit cover with them, largest first;
-    * otherwise: open with `opening`, add the smallest small items until the bin is covered. -/
+    * otherwise: open with `opening`, add the smallest small items until the bin is covered; if the small
+      items run out before that, the bin stays the current one (and the first rule applies). -/
 def threeClass (v : α → Nat) (B : Nat) (cur X Y Zasc : List α) : List (List α) :=
   if Zasc = [] then nfCover v B cur (X ++ Y)
   else if _h : X = [] ∧ Y = [] then nfCover v B cur Zasc.reverse
@@ -332,9 +334,17 @@ theorem ffOnline_sums_eq_spec {v : α → Nat} {B : Nat} {items : List α} {b : 
   rw [ffOnline_eq_spec' hne h]
 
 /-- The one difference: on the empty input the Python function returns its initial empty bin, the textbook
-    rule returns no bin. -/
+    rule returns no bin.  (So the statement without `items ≠ []` is false.) -/
 theorem ffOnline_nil (v : α → Nat) (B : Nat) :
     ffOnline v B ([] : List α) = .ok ⟨[0], [[]]⟩ ∧ ffSpec v B ([] : List α) = [] := ⟨rfl, rfl⟩
+
+/-- the statement that holds for every input -/
+theorem ffOnline_eq_spec_all {v : α → Nat} {B : Nat} {items : List α} {b : Bins α}
+    (h : ffOnline v B items = .ok b) :
+    b.lists = match items with | [] => [[]] | _ :: _ => ffSpec v B items := by
+  cases items with
+  | nil => cases h; rfl
+  | cons x xs => exact ffOnline_eq_spec (by simp) h
 
 /-- the doc-test of `first_fit.online` -/
 example : ffSpec id 9 [1, 2, 3, 3, 5, 9, 9] = [[1, 2, 3, 3], [5], [9], [9]] := by decide
@@ -365,4 +375,533 @@ example : ∃ b, ffDecreasing id 60 [44, 24, 24, 22, 21, 17, 8, 8, 6, 6] = .ok b
   ⟨_, rfl, (ffDecreasing_eq_spec (v := id) (B := 60) (items := [44, 24, 24, 22, 21, 17, 8, 8, 6, 6])
     (by decide) rfl).trans (by decide)⟩
 
+/-! ### 5. next-fit-decreasing cover -/
+
+/-- what is left in the unfinished bin after `nfCover` -/
+def nfRest (v : α → Nat) (B : Nat) : List α → List α → List α
+  | cur, [] => cur
+  | cur, x :: xs => if B ≤ binSum v (cur ++ [x]) then nfRest v B [] xs else nfRest v B (cur ++ [x]) xs
+
+/-- the bins-array with finished bins `c` and current bin `cur` (`Cover.mk`), closed form -/
+theorem mk_removeLast (v : α → Nat) (c : List (List α)) (l : List α) :
+    (Cover.mk v c l).removeLast 1 = ⟨c.map (binSum v), c⟩ := Cover.removeLast_mk v c l
+
+theorem coverStep_mk (v : α → Nat) (B : Nat) (c : List (List α)) (cur : List α) (x : α) :
+    coverStep v B (Cover.mk v c cur) x =
+      if B ≤ binSum v (cur ++ [x]) then Cover.mk v (c ++ [cur ++ [x]]) [] else Cover.mk v c (cur ++ [x]) := by
+  simp only [coverStep, Cover.addLast_mk, Cover.lastSum_mk]
+  split
+  · rw [Cover.addEmpty_mk]
+  · rfl
+
+theorem decrSub_mk (v : α → Nat) (B : Nat) : ∀ (xs : List α) (c : List (List α)) (cur : List α),
+    decrSub v B (Cover.mk v c cur) xs = Cover.mk v (c ++ nfCover v B cur xs) (nfRest v B cur xs)
+  | [], c, cur => by simp [decrSub, nfCover, nfRest]
+  | x :: xs, c, cur => by
+    have ih := decrSub_mk v B xs
+    simp only [decrSub] at ih ⊢
+    simp only [List.foldl_cons, coverStep_mk, nfCover, nfRest]
+    split
+    · rw [ih]; simp
+    · rw [ih]
+
+/-- **Next-fit-decreasing cover**, the whole result (bins and sums). -/
+theorem coverDecreasing_eq_spec' (v : α → Nat) (B : Nat) (items : List α) :
+    coverDecreasing v B items = ⟨(nfdCoverSpec v B items).map (binSum v), nfdCoverSpec v B items⟩ := by
+  unfold coverDecreasing nfdCoverSpec
+  rw [Cover.new_one v, decrSub_mk, mk_removeLast]
+  simp
+
+/-- **Next-fit-decreasing cover.** -/
+theorem coverDecreasing_eq_spec (v : α → Nat) (B : Nat) (items : List α) :
+    (coverDecreasing v B items).lists = nfdCoverSpec v B items := by
+  rw [coverDecreasing_eq_spec']
+
+theorem coverDecreasing_sums_eq_spec (v : α → Nat) (B : Nat) (items : List α) :
+    (coverDecreasing v B items).sums = (nfdCoverSpec v B items).map (binSum v) := by
+  rw [coverDecreasing_eq_spec']
+
+/-- the doc-test of `greedy_covering.decreasing` -/
+example : nfdCoverSpec id 10 [1, 2, 3, 4, 5, 6, 7, 8, 9, 10] = [[10], [9, 8], [7, 6], [5, 4, 3]] := by decide
+example : (coverDecreasing id 10 [1, 2, 3, 4, 5, 6, 7, 8, 9, 10]).lists = [[10], [9, 8], [7, 6], [5, 4, 3]] :=
+  (coverDecreasing_eq_spec id 10 [1, 2, 3, 4, 5, 6, 7, 8, 9, 10]).trans (by decide)
+
+/-! ### 6a. the 2/3 algorithm -/
+
+theorem fillUp_uncovered (v : α → Nat) (B : Nat) : ∀ (ys cur : List α),
+    binSum v (fillUp v B cur ys).1 < B → (fillUp v B cur ys).2 = []
+  | [], _, _ => rfl
+  | y :: ys, cur, h => by
+    simp only [fillUp] at h ⊢
+    split
+    · rename_i hlt
+      rw [if_pos hlt] at h
+      exact fillUp_uncovered v B ys _ h
+    · rename_i hlt
+      rw [if_neg hlt] at h
+      exact absurd h hlt
+
+/-- the inner `while` of both algorithms, on the ascending view of the remaining items -/
+theorem fillFromSmall_mk (v : α → Nat) (B : Nat) (c : List (List α)) : ∀ (asc : List α) (fuel : Nat)
+    (cur : List α), asc.length ≤ fuel →
+    fillFromSmall v B fuel (Cover.mk v c cur) asc.reverse =
+      (Cover.mk v c (fillUp v B cur asc).1, (fillUp v B cur asc).2.reverse)
+  | [], fuel, cur, _ => by
+    cases fuel with
+    | zero => rfl
+    | succ f =>
+      simp only [fillFromSmall, List.reverse_nil, List.getLast?_nil, fillUp]
+      split <;> rfl
+  | y :: ys, 0, _, h => by simp at h
+  | y :: ys, f + 1, cur, h => by
+    simp only [fillFromSmall, Cover.lastSum_mk, List.reverse_cons, List.getLast?_append,
+      List.getLast?_singleton, Option.some_or, List.dropLast_concat, fillUp]
+    split
+    · rw [Cover.addLast_mk]
+      exact fillFromSmall_mk v B c ys f _ (by simpa using h)
+    · simp
+
+theorem closeIfFull_mk (v : α → Nat) (B : Nat) (c : List (List α)) (cur : List α) :
+    closeIfFull B (Cover.mk v c cur) =
+      if B ≤ binSum v cur then Cover.mk v (c ++ [cur]) [] else Cover.mk v c cur := by
+  simp only [closeIfFull, Cover.lastSum_mk]
+  split
+  · rw [Cover.addEmpty_mk]
+  · rfl
+
+theorem twoThirdsLoop_nil (v : α → Nat) (B : Nat) (fuel : Nat) (b : Bins α) :
+    twoThirdsLoop v B fuel b [] = b := by
+  cases fuel <;> rfl
+
+theorem twoThirdsLoop_mk (v : α → Nat) (B : Nat) : ∀ (fuel : Nat) (l : List α) (c : List (List α)),
+    l.length ≤ fuel → ∃ l', twoThirdsLoop v B fuel (Cover.mk v c []) l = Cover.mk v (c ++ biFill v B l) l'
+  | fuel, [], c, _ => ⟨[], by rw [twoThirdsLoop_nil, biFill]; simp⟩
+  | 0, x :: rest, _, h => by simp at h
+  | fuel + 1, x :: rest, c, h => by
+    have key := fillFromSmall_mk v B c rest.reverse rest.length [x] (by simp)
+    rw [List.reverse_reverse] at key
+    have hlen := fillUp_length v B rest.reverse [x]
+    simp only [List.length_reverse, List.length_cons] at hlen h
+    simp only [twoThirdsLoop, Cover.addLast_mk, List.nil_append, key, closeIfFull_mk]
+    rw [biFill]
+    split
+    · obtain ⟨l', e⟩ := twoThirdsLoop_mk v B fuel (fillUp v B [x] rest.reverse).2.reverse
+        (c ++ [(fillUp v B [x] rest.reverse).1]) (by simp only [List.length_reverse]; omega)
+      exact ⟨l', by rw [e]; simp⟩
+    · rename_i hnot
+      rw [fillUp_uncovered v B _ _ (by omega)]
+      exact ⟨(fillUp v B [x] rest.reverse).1, by rw [List.reverse_nil, twoThirdsLoop_nil]; simp⟩
+
+/-- **The 2/3 algorithm**, the whole result (bins and sums). -/
+theorem twoThirds_eq_spec' (v : α → Nat) (B : Nat) (items : List α) :
+    twoThirds v B items = ⟨(twoThirdsSpec v B items).map (binSum v), twoThirdsSpec v B items⟩ := by
+  unfold twoThirds twoThirdsSpec
+  obtain ⟨l', e⟩ := twoThirdsLoop_mk v B (sortDesc v items).length (sortDesc v items) [] (Nat.le_refl _)
+  simp only [Cover.new_one v, e, mk_removeLast, List.nil_append]
+
+/-- **The 2/3 algorithm.** -/
+theorem twoThirds_eq_spec (v : α → Nat) (B : Nat) (items : List α) :
+    (twoThirds v B items).lists = twoThirdsSpec v B items := by
+  rw [twoThirds_eq_spec']
+
+theorem twoThirds_sums_eq_spec (v : α → Nat) (B : Nat) (items : List α) :
+    (twoThirds v B items).sums = (twoThirdsSpec v B items).map (binSum v) := by
+  rw [twoThirds_eq_spec']
+
+/-- the doc-test of `cflz_covering.twothirds` -/
+example : twoThirdsSpec id 10 [1, 2, 3, 4, 5, 6, 7, 8, 9, 10] = [[10], [9, 1], [8, 2], [7, 3], [6, 4]] := by
+  simp [twoThirdsSpec, sortDesc, insertDesc, biFill, fillUp, binSum, sumL]
+example : (twoThirds id 10 [1, 2, 3, 4, 5, 6, 7, 8, 9, 10]).lists = [[10], [9, 1], [8, 2], [7, 3], [6, 4]] :=
+  (twoThirds_eq_spec id 10 [1, 2, 3, 4, 5, 6, 7, 8, 9, 10]).trans
+    (by simp [twoThirdsSpec, sortDesc, insertDesc, biFill, fillUp, binSum, sumL])
+
+/-! ### 6b. the 3/4 algorithm -/
+
+theorem foldl_addLast_mk (v : α → Nat) (c : List (List α)) : ∀ (l cur : List α),
+    l.foldl (Bins.addLast v) (Cover.mk v c cur) = Cover.mk v c (cur ++ l)
+  | [], cur => by simp
+  | x :: l, cur => by
+    simp only [List.foldl_cons, Cover.addLast_mk]
+    rw [foldl_addLast_mk v c l]
+    simp
+
+/-- the way the model opens a bin is `opening` (the medium items have positive value) -/
+theorem model_opening (v : α → Nat) (X Y : List α) (hne : ¬ (X = [] ∧ Y = [])) (hY : ∀ y ∈ Y, 0 < v y) :
+    ((if binSum v (Y.take 2) ≤ binSum v (X.take 1) then X.take 1 else Y.take 2),
+      (if binSum v (Y.take 2) ≤ binSum v (X.take 1) then X.drop 1 else X),
+      (if binSum v (Y.take 2) ≤ binSum v (X.take 1) then Y else Y.drop 2)) = opening v X Y := by
+  cases X with
+  | nil =>
+    cases Y with
+    | nil => exact absurd ⟨rfl, rfl⟩ hne
+    | cons y Y =>
+      have hy := hY y List.mem_cons_self
+      have : ¬ binSum v ((y :: Y).take 2) ≤ binSum v (([] : List α).take 1) := by
+        cases Y <;> simp [binSum, sumL] <;> omega
+      simp only [if_neg this, opening]
+  | cons x X =>
+    have e : binSum v ((x :: X).take 1) = v x := by simp [binSum, sumL]
+    simp only [e, opening]
+    split <;> simp
+
+theorem opening_sub (v : α → Nat) (X Y : List α) : ∀ y ∈ (opening v X Y).2.2, y ∈ Y := by
+  intro y hy
+  cases X with
+  | nil => exact List.mem_of_mem_drop hy
+  | cons x X =>
+    simp only [opening] at hy
+    split at hy
+    · exact hy
+    · exact List.mem_of_mem_drop hy
+
+theorem threeQuartersLoop_mk (v : α → Nat) (B : Nat) : ∀ (fuel : Nat) (X Y Zasc : List α)
+    (c : List (List α)) (cur : List α), X.length + Y.length < fuel → (∀ y ∈ Y, 0 < v y) →
+    ∃ l', threeQuartersLoop v B fuel (Cover.mk v c cur) X Y Zasc.reverse =
+      Cover.mk v (c ++ threeClass v B cur X Y Zasc) l'
+  | 0, _, _, _, _, _, h, _ => by omega
+  | fuel + 1, X, Y, Zasc, c, cur, h, hY => by
+    rw [threeQuartersLoop, threeClass]
+    by_cases hZ : Zasc = []
+    · subst hZ
+      simp only [List.reverse_nil, List.isEmpty_nil, if_true]
+      refine ⟨nfRest v B cur (X ++ Y), ?_⟩
+      have := decrSub_mk v B (X ++ Y) c cur
+      simp only [decrSub, List.foldl_append] at this ⊢
+      exact this
+    · have hZ' : Zasc.reverse.isEmpty = false := by simpa using hZ
+      rw [hZ', if_neg hZ]
+      simp only [Bool.false_eq_true, if_false]
+      by_cases hXY : X = [] ∧ Y = []
+      · obtain ⟨rfl, rfl⟩ := hXY
+        simp only [List.isEmpty_nil, Bool.and_self, if_true, and_self, dite_true]
+        exact ⟨_, decrSub_mk v B Zasc.reverse c cur⟩
+      · have hXY' : (X.isEmpty && Y.isEmpty) = false := by
+          simpa [List.isEmpty_iff] using hXY
+        rw [hXY', dif_neg hXY]
+        simp only [Bool.false_eq_true, if_false]
+        have ho := model_opening v X Y hXY hY
+        simp only [Prod.ext_iff] at ho
+        obtain ⟨ho1, ho2, ho3⟩ := ho
+        have e1 : (if decide (binSum v (Y.take 2) ≤ binSum v (X.take 1)) = true
+            then (X.take 1).foldl (Bins.addLast v) (Cover.mk v c cur)
+            else (Y.take 2).foldl (Bins.addLast v) (Cover.mk v c cur)) =
+            Cover.mk v c (cur ++ (opening v X Y).1) := by
+          rw [← ho1]
+          by_cases hu : binSum v (Y.take 2) ≤ binSum v (X.take 1) <;>
+            simp [hu, foldl_addLast_mk]
+        have e2 : (if decide (binSum v (Y.take 2) ≤ binSum v (X.take 1)) = true then X.drop 1 else X) =
+            (opening v X Y).2.1 := by
+          rw [← ho2]; simp
+        have e3 : (if decide (binSum v (Y.take 2) ≤ binSum v (X.take 1)) = true then Y else Y.drop 2) =
+            (opening v X Y).2.2 := by
+          rw [← ho3]; simp
+        have key := fillFromSmall_mk v B c Zasc Zasc.reverse.length (cur ++ (opening v X Y).1) (by simp)
+        simp only [e1, e2, e3, key, closeIfFull_mk]
+        have hlen := opening_length v X Y hXY
+        have hY' : ∀ y ∈ (opening v X Y).2.2, 0 < v y := fun y hy => hY y (opening_sub v X Y y hy)
+        split
+        · obtain ⟨l', e⟩ := threeQuartersLoop_mk v B fuel (opening v X Y).2.1 (opening v X Y).2.2
+            (fillUp v B (cur ++ (opening v X Y).1) Zasc).2
+            (c ++ [(fillUp v B (cur ++ (opening v X Y).1) Zasc).1]) [] (by omega) hY'
+          exact ⟨l', by rw [e]; simp⟩
+        · exact threeQuartersLoop_mk v B fuel _ _ _ c _ (by omega) hY'
+
+theorem filter_isMedium (v : α → Nat) (B : Nat) (s : List α) :
+    s.filter (isMedium v B) = s.filter (fun x => B ≤ 3 * v x ∧ 2 * v x < B) := by
+  apply List.filter_congr
+  intro x _
+  simp [isMedium]
+
+/-- **The 3/4 algorithm**, the whole result (bins and sums). -/
+theorem threeQuarters_eq_spec' (v : α → Nat) (B : Nat) (items : List α) :
+    threeQuarters v B items =
+      ⟨(threeQuartersSpec v B items).map (binSum v), threeQuartersSpec v B items⟩ := by
+  unfold threeQuarters threeQuartersSpec
+  have hp := (Cover.classes_perm v B (sortDesc v items)).length_eq
+  simp only [List.length_append] at hp
+  obtain ⟨l', e⟩ := threeQuartersLoop_mk v B ((sortDesc v items).length + 1)
+    ((sortDesc v items).filter (isBig v B)) ((sortDesc v items).filter (isMedium v B))
+    ((sortDesc v items).filter (isSmall v B)).reverse [] [] (by omega) (by
+      intro y hy
+      have := (List.mem_filter.1 hy).2
+      simp only [isMedium, Bool.and_eq_true, decide_eq_true_eq] at this
+      omega)
+  rw [List.reverse_reverse] at e
+  simp only [Cover.new_one v]
+  rw [e, mk_removeLast, List.nil_append, filter_isMedium]
+  rfl
+
+/-- **The 3/4 algorithm.** -/
+theorem threeQuarters_eq_spec (v : α → Nat) (B : Nat) (items : List α) :
+    (threeQuarters v B items).lists = threeQuartersSpec v B items := by
+  rw [threeQuarters_eq_spec']
+
+theorem threeQuarters_sums_eq_spec (v : α → Nat) (B : Nat) (items : List α) :
+    (threeQuarters v B items).sums = (threeQuartersSpec v B items).map (binSum v) := by
+  rw [threeQuarters_eq_spec']
+
+/-- the doc-tests of `cflz_covering.threequarters` -/
+example : threeQuartersSpec id 10 [1, 2, 3, 4, 5, 6, 7, 8, 9, 10] =
+    [[10], [9, 1], [8, 2], [7, 3], [6, 5]] := by
+  simp [threeQuartersSpec, sortDesc, insertDesc, threeClass, opening, nfCover, fillUp, binSum, sumL]
+example : threeQuartersSpec id 1000 [994, 501, 501, 499, 499, 499, 499, 1, 1, 1, 1, 1, 1, 1, 1, 1, 1, 1, 1] =
+    [[499, 499, 1, 1], [499, 499, 1, 1], [994, 1, 1, 1, 1, 1, 1], [501, 1, 1, 501]] := by
+  simp [threeQuartersSpec, sortDesc, insertDesc, threeClass, opening, nfCover, fillUp, binSum, sumL]
+example : (threeQuarters id 10 [1, 2, 3, 4, 5, 6, 7, 8, 9, 10]).lists =
+    [[10], [9, 1], [8, 2], [7, 3], [6, 5]] :=
+  (threeQuarters_eq_spec id 10 [1, 2, 3, 4, 5, 6, 7, 8, 9, 10]).trans (by
+    simp [threeQuartersSpec, sortDesc, insertDesc, threeClass, opening, nfCover, fillUp, binSum, sumL])
+
+/-! ### 3. LPT -/
+
+theorem perm_getElem_cons_eraseIdx : ∀ (l : List Nat) (i : Nat) (h : i < l.length),
+    l.Perm (l[i] :: l.eraseIdx i)
+  | [], _, h => by simp at h
+  | a :: l, 0, _ => List.Perm.refl _
+  | a :: l, i + 1, h => by
+    have ih := perm_getElem_cons_eraseIdx l i (by simpa using h)
+    simp only [List.getElem_cons_succ, List.eraseIdx_cons_succ]
+    exact (ih.cons a).trans (List.Perm.swap _ _ _)
+
+theorem modify_perm_cons_eraseIdx (f : Nat → Nat) : ∀ (l : List Nat) (i : Nat) (h : i < l.length),
+    (l.modify i f).Perm (f l[i] :: l.eraseIdx i)
+  | [], _, h => by simp at h
+  | a :: l, 0, _ => List.Perm.refl _
+  | a :: l, i + 1, h => by
+    have ih := modify_perm_cons_eraseIdx f l i (by simpa using h)
+    simp only [List.getElem_cons_succ, List.eraseIdx_cons_succ, List.modify_succ_cons]
+    exact (ih.cons a).trans (List.Perm.swap _ _ _)
+
+/-- changing, in two lists with the same elements, one occurrence of the same value in the same way -/
+theorem modify_perm_modify {s t : List Nat} (hp : s.Perm t) {i j : Nat} (hi : i < s.length)
+    (hj : j < t.length) (e : s[i] = t[j]) (f : Nat → Nat) : (s.modify i f).Perm (t.modify j f) := by
+  have h1 := perm_getElem_cons_eraseIdx s i hi
+  have h2 := perm_getElem_cons_eraseIdx t j hj
+  have h3 : (s.eraseIdx i).Perm (t.eraseIdx j) := by
+    have := (h1.symm.trans hp).trans h2
+    rw [e] at this
+    exact this.cons_inv
+  refine (modify_perm_cons_eraseIdx f s i hi).trans (List.Perm.trans ?_ (modify_perm_cons_eraseIdx f t j hj).symm)
+  rw [e]
+  exact h3.cons _
+
+/-- the least-loaded bins of two arrays with the same multiset of sums have the same sum, so adding the same
+    value to either gives again the same multiset -/
+theorem min_step_perm {s t : List Nat} (hp : s.Perm t) {i j : Nat} (hi : i < s.length) (hj : j < t.length)
+    (mi : ∀ x ∈ s, s[i] ≤ x) (mj : ∀ x ∈ t, t[j] ≤ x) (a : Nat) :
+    (s.modify i (· + a)).Perm (t.modify j (· + a)) := by
+  refine modify_perm_modify hp hi hj ?_ _
+  have h1 := mi _ (hp.mem_iff.2 (List.getElem_mem hj))
+  have h2 := mj _ (hp.mem_iff.1 (List.getElem_mem hi))
+  omega
+
+theorem lpt_runs_perm (v : α → Nat) : ∀ (o₁ o₂ : List α), o₁.map v = o₂.map v →
+    ∀ (b₁ b₂ b₁' b₂' : Bins α), b₁.sums.Perm b₂.sums →
+      Run (LPTStep v) b₁ o₁ b₁' → Run (LPTStep v) b₂ o₂ b₂' → b₁'.sums.Perm b₂'.sums
+  | [], o₂, ho, b₁, b₂, b₁', b₂', hp, r₁, r₂ => by
+    have : o₂ = [] := by simpa using ho.symm
+    subst this
+    cases r₁; cases r₂
+    exact hp
+  | x :: o₁, [], ho, _, _, _, _, _, _, _ => by simp at ho
+  | x :: o₁, y :: o₂, ho, b₁, b₂, b₁', b₂', hp, r₁, r₂ => by
+    simp only [List.map_cons, List.cons.injEq] at ho
+    cases r₁ with
+    | cons s₁ r₁ =>
+      cases r₂ with
+      | cons s₂ r₂ =>
+        obtain ⟨i, hi, mi, rfl⟩ := s₁
+        obtain ⟨j, hj, mj, rfl⟩ := s₂
+        refine lpt_runs_perm v o₁ o₂ ho.2 _ _ _ _ ?_ r₁ r₂
+        simp only [Bins.add, ho.1]
+        exact min_step_perm hp hi hj mi mj (v y)
+
+theorem greedy_fold_run (v : α → Nat) : ∀ (xs : List α) (b : Bins α), b.sums ≠ [] →
+    Run (LPTStep v) b xs (xs.foldl (greedyStep v) b)
+  | [], b, _ => Run.nil b
+  | x :: xs, b, hne => by
+    have hlt := Part.argmin_lt hne
+    refine Run.cons (b₁ := greedyStep v b x) ⟨argmin b.sums, hlt, ?_, rfl⟩ (greedy_fold_run v xs _ ?_)
+    · intro s hs
+      rw [Part.getElem_argmin hlt]
+      exact Part.minL_le hs
+    · intro h0
+      apply hne
+      have := congrArg List.length h0
+      simpa [greedyStep, Bins.add] using this
+
+/-- **Greedy is an LPT run** (it sorts stably and takes the first least-loaded bin). -/
+theorem greedy_is_lpt_run {v : α → Nat} {k : Nat} {items : List α} (hk : 0 < k) :
+    IsLPTRun v k items (greedy v k items) := by
+  refine ⟨sortDesc v items, Part.sortDesc_perm v items, Part.sortDesc_sorted v items, ?_⟩
+  apply greedy_fold_run
+  intro h0
+  have := congrArg List.length h0
+  simp [Bins.new] at this
+  omega
+
+example : IsLPTRun id 3 [1, 2, 3, 3, 5, 9, 9] (greedy id 3 [1, 2, 3, 3, 5, 9, 9]) :=
+  greedy_is_lpt_run (by decide)
+example : (greedy id 3 [1, 2, 3, 3, 5, 9, 9]).lists = [[9, 2], [9, 1], [5, 3, 3]] := by decide
+
+theorem sorted_values_unique (v : α → Nat) {o₁ o₂ : List α} (hp : o₁.Perm o₂)
+    (h₁ : o₁.Pairwise (fun a c => v c ≤ v a)) (h₂ : o₂.Pairwise (fun a c => v c ≤ v a)) :
+    o₁.map v = o₂.map v := by
+  refine List.Perm.eq_of_pairwise (le := fun a c => c ≤ a) ?_ ?_ ?_ (hp.map v)
+  · intro a b _ _ h1 h2; omega
+  · exact List.pairwise_map.2 h₁
+  · exact List.pairwise_map.2 h₂
+
+/-- **Ties cannot matter**: any two LPT runs on the same items end with the same multiset of bin sums. -/
+theorem lpt_runs_same_sums {v : α → Nat} {k : Nat} {items : List α} {b b' : Bins α}
+    (h : IsLPTRun v k items b) (h' : IsLPTRun v k items b') : b.sums.Perm b'.sums := by
+  obtain ⟨o₁, p₁, s₁, r₁⟩ := h
+  obtain ⟨o₂, p₂, s₂, r₂⟩ := h'
+  exact lpt_runs_perm v o₁ o₂ (sorted_values_unique v (p₁.trans p₂.symm) s₁ s₂) _ _ _ _
+    (List.Perm.refl _) r₁ r₂
+
+/-- so every transcription of the LPT rule has the sums of `greedy`, up to the order of the bins -/
+theorem lpt_run_sums_perm_greedy {v : α → Nat} {k : Nat} {items : List α} {b : Bins α} (hk : 0 < k)
+    (h : IsLPTRun v k items b) : b.sums.Perm (greedy v k items).sums :=
+  lpt_runs_same_sums h (greedy_is_lpt_run hk)
+
+/-- another LPT run on `[3, 2]`: the first item goes to the *second* (equally empty) bin -/
+theorem lpt_other_run : IsLPTRun id 2 [3, 2] ⟨[2, 3], [[2], [3]]⟩ := by
+  refine ⟨[3, 2], List.Perm.refl _, by simp, ?_⟩
+  refine Run.cons (b₁ := ⟨[0, 3], [[], [3]]⟩) ⟨1, by decide, by decide, rfl⟩ ?_
+  exact Run.cons (b₁ := ⟨[2, 3], [[2], [3]]⟩) ⟨0, by decide, by decide, rfl⟩ (Run.nil _)
+
+example : [2, 3].Perm (greedy id 2 [3, 2]).sums :=
+  lpt_runs_same_sums lpt_other_run (greedy_is_lpt_run (by decide))
+example : (greedy id 2 [3, 2]).sums = [3, 2] := by decide
+
+/-! ### 4. best fit -/
+
+/-- one step of the model is a best-fit step (it takes the *first* of the fullest bins with room) -/
+theorem bfStep_bestFitStep (v : α → Nat) (B : Nat) (b : Bins α) (x : α)
+    (hl : b.sums.length = b.lists.length) : BestFitStep v B b x (bfStep v B b x) := by
+  rcases Fit.bfStep_spec v B b x with ⟨i, h, hfit, hmax, _, e⟩ | ⟨hno, e⟩
+  · refine Or.inl ⟨i, h, hfit, ?_, e⟩
+    intro s hs hsfit
+    obtain ⟨j, hj, rfl⟩ := List.getElem_of_mem hs
+    exact hmax j hj hsfit
+  · exact Or.inr ⟨hno, by rw [e, Fit.addEmpty_add v b x hl]⟩
+
+theorem bestFitStep_lengths {v : α → Nat} {B : Nat} {b b' : Bins α} {x : α}
+    (hs : BestFitStep v B b x b') (hl : b.sums.length = b.lists.length) :
+    b'.sums.length = b'.lists.length := by
+  rcases hs with ⟨i, _, _, _, rfl⟩ | ⟨_, rfl⟩
+  · simpa [Bins.add] using hl
+  · simpa using hl
+
+theorem bf_fold_run (v : α → Nat) (B : Nat) : ∀ (xs : List α) (b : Bins α),
+    b.sums.length = b.lists.length → Run (BestFitStep v B) b xs (xs.foldl (bfStep v B) b)
+  | [], b, _ => Run.nil b
+  | x :: xs, b, hl =>
+    Run.cons (bfStep_bestFitStep v B b x hl)
+      (bf_fold_run v B xs _ (bestFitStep_lengths (bfStep_bestFitStep v B b x hl) hl))
+
+/-- **Best fit (online) is a best-fit run.**  As for first fit, the input must be non-empty: on the empty
+    input the Python function returns its initial empty bin, the textbook rule no bin. -/
+theorem bfOnline_is_bestfit_run {v : α → Nat} {B : Nat} {items : List α} {b : Bins α} (hne : items ≠ [])
+    (h : bfOnline v B items = .ok b) : IsBestFitRun v B items b := by
+  cases items with
+  | nil => exact absurd rfl hne
+  | cons x xs =>
+    simp only [bfOnline, Fit.bfLoop_eq] at h
+    have hall := Fit.gen_ok_all_le h
+    rw [Fit.genLoop_ok v B _ _ _ hall] at h
+    cases h
+    have hx : v x ≤ B := hall x List.mem_cons_self
+    have e : bfStep v B (Bins.new 1) x = ⟨[v x], [[x]]⟩ := by
+      rcases Fit.bfStep_spec v B (Bins.new 1 : Bins α) x with ⟨i, h, _, _, _, e⟩ | ⟨hno, _⟩
+      · have : i = 0 := by simp [Bins.new] at h; exact h
+        subst this
+        rw [e]
+        simp [Bins.add, Bins.new]
+      · exact absurd (by simpa using hx) (hno 0 (by simp [Bins.new]))
+    rw [List.foldl_cons, e]
+    exact Run.cons (Or.inr ⟨by simp, rfl⟩) (bf_fold_run v B xs _ rfl)
+
+theorem bfOnline_nil (v : α → Nat) (B : Nat) :
+    bfOnline v B ([] : List α) = .ok ⟨[0], [[]]⟩ ∧ IsBestFitRun v B ([] : List α) ⟨[], []⟩ :=
+  ⟨rfl, Run.nil _⟩
+
+/-- **Best fit decreasing** is a best-fit run on the items sorted by non-increasing value. -/
+theorem bfDecreasing_is_bestfit_run {v : α → Nat} {B : Nat} {items : List α} {b : Bins α}
+    (hne : items ≠ []) (h : bfDecreasing v B items = .ok b) : IsBestFitRun v B (sortDesc v items) b :=
+  bfOnline_is_bestfit_run (sortDesc_ne_nil v hne) h
+
+/-- the doc-test of `best_fit.online` -/
+example : IsBestFitRun id 9 [4, 7, 2, 1, 5, 8, 4] ⟨[9, 9, 5, 8], [[4, 1, 4], [7, 2], [5], [8]]⟩ :=
+  bfOnline_is_bestfit_run (v := id) (B := 9) (items := [4, 7, 2, 1, 5, 8, 4]) (by decide) rfl
+example : IsBestFitRun id 9 (sortDesc id [4, 7, 2, 1, 5, 8, 4])
+    ⟨[9, 9, 9, 4], [[8, 1], [7, 2], [5, 4], [4]]⟩ :=
+  bfDecreasing_is_bestfit_run (v := id) (B := 9) (items := [4, 7, 2, 1, 5, 8, 4]) (by decide) rfl
+
+/-- one best-fit step on two arrays with the same multiset of sums gives the same multiset of sums -/
+theorem bestFitStep_perm {v : α → Nat} {B : Nat} {b₁ b₂ b₁' b₂' : Bins α} {x : α}
+    (hp : b₁.sums.Perm b₂.sums) (s₁ : BestFitStep v B b₁ x b₁') (s₂ : BestFitStep v B b₂ x b₂') :
+    b₁'.sums.Perm b₂'.sums := by
+  rcases s₁ with ⟨i, hi, fi, mi, rfl⟩ | ⟨n₁, rfl⟩ <;> rcases s₂ with ⟨j, hj, fj, mj, rfl⟩ | ⟨n₂, rfl⟩
+  · refine modify_perm_modify hp hi hj ?_ _
+    have h1 := mi _ (hp.mem_iff.2 (List.getElem_mem hj)) fj
+    have h2 := mj _ (hp.mem_iff.1 (List.getElem_mem hi)) fi
+    omega
+  · exact absurd fi (n₂ _ (hp.mem_iff.1 (List.getElem_mem hi)))
+  · exact absurd fj (n₁ _ (hp.mem_iff.2 (List.getElem_mem hj)))
+  · exact hp.append_right _
+
+theorem bestfit_runs_perm (v : α → Nat) (B : Nat) : ∀ (xs : List α) (b₁ b₂ b₁' b₂' : Bins α),
+    b₁.sums.Perm b₂.sums → Run (BestFitStep v B) b₁ xs b₁' → Run (BestFitStep v B) b₂ xs b₂' →
+    b₁'.sums.Perm b₂'.sums
+  | [], _, _, _, _, hp, r₁, r₂ => by cases r₁; cases r₂; exact hp
+  | x :: xs, _, _, _, _, hp, r₁, r₂ => by
+    cases r₁ with
+    | cons s₁ r₁ =>
+      cases r₂ with
+      | cons s₂ r₂ => exact bestfit_runs_perm v B xs _ _ _ _ (bestFitStep_perm hp s₁ s₂) r₁ r₂
+
+/-- **Ties cannot matter**: two best-fit runs on the same arrival order end with the same multiset of sums. -/
+theorem bestfit_runs_same_sums {v : α → Nat} {B : Nat} {items : List α} {b b' : Bins α}
+    (h : IsBestFitRun v B items b) (h' : IsBestFitRun v B items b') : b.sums.Perm b'.sums :=
+  bestfit_runs_perm v B items _ _ _ _ (List.Perm.refl _) h h'
+
+/-- another best-fit run on `[6, 6, 4]`, `B = 10`: the `4` goes to the *second* of the two equally full bins
+    (the model takes the first) -/
+theorem bestfit_other_run : IsBestFitRun id 10 [6, 6, 4] ⟨[6, 10], [[6], [6, 4]]⟩ := by
+  refine Run.cons (b₁ := ⟨[6], [[6]]⟩) (Or.inr ⟨by simp, rfl⟩) ?_
+  refine Run.cons (b₁ := ⟨[6, 6], [[6], [6]]⟩) (Or.inr ⟨by simp, rfl⟩) ?_
+  exact Run.cons (b₁ := ⟨[6, 10], [[6], [6, 4]]⟩) (Or.inl ⟨1, by decide, by decide, by decide, rfl⟩)
+    (Run.nil _)
+
+example : [6, 10].Perm [10, 6] :=
+  bestfit_runs_same_sums bestfit_other_run
+    (bfOnline_is_bestfit_run (v := id) (B := 10) (items := [6, 6, 4]) (b := ⟨[10, 6], [[6, 4], [6]]⟩)
+      (by decide) rfl)
+
 end Prtpy.Textbook
+
+/-
+Axiom audit (`#print axioms`, observed with Lean 4.33.0):
+
+#print axioms Prtpy.Textbook.roundrobin_eq_spec            -- [propext, Classical.choice, Quot.sound]
+#print axioms Prtpy.Textbook.roundrobin_sums_eq_spec       -- [propext, Classical.choice, Quot.sound]
+#print axioms Prtpy.Textbook.ffOnline_eq_spec              -- [propext, Classical.choice, Quot.sound]
+#print axioms Prtpy.Textbook.ffOnline_eq_spec_all          -- [propext, Classical.choice, Quot.sound]
+#print axioms Prtpy.Textbook.ffOnline_sums_eq_spec         -- [propext, Classical.choice, Quot.sound]
+#print axioms Prtpy.Textbook.ffDecreasing_eq_spec          -- [propext, Classical.choice, Quot.sound]
+#print axioms Prtpy.Textbook.ffDecreasing_sums_eq_spec     -- [propext, Classical.choice, Quot.sound]
+#print axioms Prtpy.Textbook.coverDecreasing_eq_spec       -- [propext, Quot.sound]
+#print axioms Prtpy.Textbook.coverDecreasing_sums_eq_spec  -- [propext, Quot.sound]
+#print axioms Prtpy.Textbook.greedy_is_lpt_run             -- [propext, Classical.choice, Quot.sound]
+#print axioms Prtpy.Textbook.lpt_runs_same_sums            -- [propext, Quot.sound]
+#print axioms Prtpy.Textbook.lpt_run_sums_perm_greedy      -- [propext, Classical.choice, Quot.sound]
+#print axioms Prtpy.Textbook.twoThirds_eq_spec             -- [propext, Quot.sound]
+#print axioms Prtpy.Textbook.twoThirds_sums_eq_spec        -- [propext, Quot.sound]
+#print axioms Prtpy.Textbook.threeQuarters_eq_spec         -- [propext, Classical.choice, Quot.sound]
+#print axioms Prtpy.Textbook.threeQuarters_sums_eq_spec    -- [propext, Classical.choice, Quot.sound]
+#print axioms Prtpy.Textbook.bfOnline_is_bestfit_run       -- [propext, Classical.choice, Quot.sound]
+#print axioms Prtpy.Textbook.bfDecreasing_is_bestfit_run   -- [propext, Classical.choice, Quot.sound]
+#print axioms Prtpy.Textbook.bestfit_runs_same_sums        -- [propext, Quot.sound]
+-/
